@@ -554,7 +554,7 @@ pub fn minimise(plan: &DotPlan, v: &Violation) -> (DotPlan, Violation) {
     };
     let mut best = plan.clone();
     let mut best_v = v.clone();
-    let mut attempt = |cand: DotPlan, best: &mut DotPlan, best_v: &mut Violation| {
+    let attempt = |cand: DotPlan, best: &mut DotPlan, best_v: &mut Violation| {
         if let Some(nv) = same(&cand) {
             *best = cand;
             *best_v = nv;
